@@ -151,6 +151,12 @@ fn verif_dir() -> PathBuf {
     std::env::var("SIMPLC_VERIF_DIR").map(PathBuf::from).unwrap_or_else(|_| PathBuf::from("/verif"))
 }
 
+/// Where evidence and replay files go (the sensitivity tools redirect this so that runs against a
+/// deliberately broken tree never overwrite the evidence of the unchanged tree).
+fn out_dir() -> PathBuf {
+    std::env::var("SIMPLC_OUT_DIR").map(PathBuf::from).unwrap_or_else(|_| verif_dir())
+}
+
 pub fn run_seed(seed: u64, prop: &str, r: u64) -> u64 {
     mix(&[seed, hash_str(prop), r])
 }
@@ -392,7 +398,7 @@ fn sanitise(s: &str) -> String {
 }
 
 fn write_replay(rf: &ReplayFile) -> PathBuf {
-    let dir = verif_dir().join("replays");
+    let dir = out_dir().join("replays");
     let _ = std::fs::create_dir_all(&dir);
     let path = dir.join(format!("{}-seed{}-run{}.json", sanitise(&rf.signature), rf.seed, rf.run_index));
     let _ = std::fs::write(&path, serde_json::to_vec_pretty(rf).unwrap());
@@ -584,7 +590,7 @@ pub fn run(prop: &str, tier: &str, extra: &[String]) -> i32 {
         "wall_s": wall,
         "violations": new_violations
     });
-    let edir = verif_dir().join("evidence");
+    let edir = out_dir().join("evidence");
     let _ = std::fs::create_dir_all(&edir);
     if let Err(e) = std::fs::write(edir.join(format!("{prop}.json")), serde_json::to_vec_pretty(&evidence).unwrap()) {
         eprintln!("simplc: harness error: cannot write evidence: {e}");
